@@ -16,8 +16,9 @@
 
   AXIOMS.  Everything except `define_ext_tables` depends only on propext, Classical.choice,
   Quot.sound.  `define_ext_tables` goes through `C01.define_ext_lawful` over the real Conway
-  database and inherits the `native_decide` certificates of C04 (`Lean.ofReduceBool`,
-  `Lean.trustCompiler`).  No `native_decide` is written in this file.
+  database and inherits the `native_decide` certificates of C04 (the 67 axioms
+  `Algobra.C04Check.{look00…look31, sweep00…sweep31, scan_ok, tab_ok}._native.native_decide.ax_1_1`,
+  the same set as `C01.define_ext_lawful`).  No `native_decide` is written in this file.
 
   Remark on the word size (no finding): tabled `Prod` adds the two logarithms as machine words,
   `(s + t) % (Card() - 1)` with `s, t ≤ q - 2`.  The sum cannot wrap for `q ≤ 2^63 + 1`; the
@@ -248,6 +249,105 @@ example : (Expr.pow (.inv (.add (.mul (.reg 0) (.reg 1)) .gen)) 5).eval (primeOp
   (Expr.pow (.inv (.add (.mul (.reg 0) (.reg 1)) .gen)) 5).eval (primeOps 7)
     (fun k => if k = 0 then 3 else 5) = some 4 ∧
   (Expr.inv (.sub (.reg 0) (.reg 0))).eval (primeOpsT 7 true true) (fun _ => 3) = none := by
+  decide +kernel
+
+/-! ### histories (`step` / `runOps` of Model/Hist.lean) -/
+
+/-- C18-T16 (`history_transparent_partial`).  Run any history of ELEMENT-LEVEL operations and table
+    requests (`Tables.elemOp`: `Zero One MultGenerator` and foreign constructors, `Plus Minus Times
+    Neg Inv Copy Trace Pow Add Sub Mult Prod SetNeg Equal`, the observers, `ComputeTables`) in two
+    environments whose field objects agree index by index on closed sets `V i` (`Tables.EnvAgree`; e.g.
+    tabled against untabled records, T5/T13), from a store whose element registers hold valid
+    representations (`Tables.StoreOK`): the final stores are EQUAL and all replies (returned object,
+    its value, its error status) are EQUAL.
+    MISSING for the full statement (`history_transparent_full` below): (1) the constructors that
+    read external data (`u s str`, `SetUnsigned`) — needs validity of `ofNat ofInt parse`, available
+    for prime fields (C01Prime) but not packaged in `FieldFacts`; (2) all univariate / bivariate /
+    ideal operations — needs "every coefficient stays valid" through `UPoly.*`, `BPoly.*` and the
+    Gröbner machinery for an arbitrary lawful record, which the existing refinement proofs (C05–C14)
+    establish operation by operation but not as one store invariant. -/
+theorem history_transparent_partial {α : Type} {env env' : Env α} {V : Nat → α → Prop}
+    (h : EnvAgree env env' V) (desc : FieldDesc) (ops : List Op)
+    (hops : ∀ op ∈ ops, elemOp op = true) {s : St α} (hs : StoreOK V s) :
+    runOps env' desc s ops = runOps env desc s ops :=
+  runOps_elem_agree h desc ops hops hs
+
+/-- one step, with the invariant: same store, same reply, validity kept -/
+theorem step_transparent_partial {α : Type} {env env' : Env α} {V : Nat → α → Prop}
+    (h : EnvAgree env env' V) (desc : FieldDesc) {s : St α} (hs : StoreOK V s) (op : Op)
+    (hop : elemOp op = true) :
+    step env' desc s op = step env desc s op ∧ StoreOK V (step env desc s op).1 :=
+  step_elem_agree h desc hs op hop
+
+/-- every coefficient anywhere in the store is valid (polynomial coefficients live in field 0) -/
+def StoreOKAll {α : Type} (V : Nat → α → Prop) (s : St α) : Prop :=
+  StoreOK V s ∧ (∀ k r, St.getL s.us k = some r → ∀ c ∈ r.val, V 0 c) ∧
+  (∀ k r, St.getL s.bs k = some r → ∀ t ∈ r.val, V 0 t.2) ∧
+  (∀ k I, St.getL s.ids k = some I → ∀ f ∈ I.gens, ∀ t ∈ f, V 0 t.2)
+
+/-- the constructors that decode raw wire data can create invalid representations -/
+def noRaw : Op → Bool
+  | .eCtor _ _ how _ => how != "enc"
+  | .uCtor _ _ how _ => how != "coefs"
+  | .bCtor _ _ how _ => how != "map"
+  | _ => true
+
+/-- NOT PROVED (see T16 for what is missing).  The full history-level statement: two environments
+    that differ only in their field records, which agree on closed sets containing everything the
+    constructors produce; rings over field 0 with valid moduli; a store with valid coefficients
+    everywhere; any operations except the raw-data constructors.  Then `runOps` returns the same
+    final store and the same replies. -/
+def history_transparent_full : Prop :=
+  ∀ {α : Type} (env env' : Env α) (V : Nat → α → Prop) (desc : FieldDesc) (ops : List Op) (s : St α),
+    EnvAgree env env' V →
+    (∀ i k z str v, V i ((env.fld i).ofNat k) ∧ V i ((env.fld i).ofInt z) ∧
+      ((env.fld i).parse str = .ok v → V i v)) →
+    (∀ i, (env.uring i).F = env.fld 0 ∧ env'.uring i = { env.uring i with F := env'.fld 0 } ∧
+      ∀ m, (env.uring i).modulus = some m → ∀ c ∈ m, V 0 c) →
+    (∀ i, (env.bring i).F = env.fld 0 ∧ env'.bring i = { env.bring i with F := env'.fld 0 } ∧
+      ∀ gs, (env.bring i).ideal = some gs → ∀ f ∈ gs, ∀ t ∈ f, V 0 t.2) →
+    StoreOKAll V s → (∀ op ∈ ops, noRaw op = true) →
+    runOps env' desc s ops = runOps env desc s ops
+
+/-- the tabled and the untabled environment of a prime field satisfy `EnvAgree` -/
+theorem envAgree_prime {p : Nat} (hp : p.Prime) (h32 : p - 1 < 2 ^ 32) (tabs : Nat → Bool × Bool)
+    (env : Env Nat) (henv : ∀ i, env.fld i = primeOps p) :
+    EnvAgree env { env with fld := fun i => primeOpsT p (tabs i).1 (tabs i).2 } (fun _ a => a < p) :=
+  ⟨fun i => by rw [henv i]; exact (primeOpsT_agree hp h32 _ _).1,
+   fun i => by rw [henv i]; exact (primeOpsT_agree hp h32 false false).2⟩
+
+/-- the tabled and the untabled environment of an extension field satisfy `EnvAgree` -/
+theorem envAgree_ext {p n : Nat} {g : List Nat} {K : Type} [Field K] (L : Lawful (extOps p n g) K)
+    (hL : Assemble.FieldFacts L p n) (hcanon : ∀ a, L.valid a → UPoly.Canon (primeOps p) a)
+    (hq : p ^ n ≤ 2 ^ 63) (tabs : Nat → Bool) (env : Env (UPoly Nat))
+    (henv : ∀ i, env.fld i = extOps p n g) :
+    EnvAgree env { env with fld := fun i => extOpsT p n g (tabs i) } (fun _ => L.valid) :=
+  ⟨fun i => by rw [henv i]; exact (extOpsT_agree L hL hcanon hq _).1,
+   fun i => by rw [henv i]; exact (extOpsT_agree L hL hcanon hq false).2⟩
+
+/-- C18-T17. A history over GF(p) in which tables are requested at any point: computing every later
+    operation with the TABLED algorithms (environment `envT`, all field objects tabled from the
+    start — the strongest case) gives the same stores and replies as the untabled model. -/
+theorem history_transparent_prime {p : Nat} (hp : p.Prime) (h32 : p - 1 < 2 ^ 32)
+    (tabs : Nat → Bool × Bool) (env : Env Nat) (henv : ∀ i, env.fld i = primeOps p)
+    (ops : List Op) (hops : ∀ op ∈ ops, elemOp op = true) {s : St Nat}
+    (hs : StoreOK (fun _ a => a < p) s) :
+    runOps { env with fld := fun i => primeOpsT p (tabs i).1 (tabs i).2 } (.prime p) s ops
+      = runOps env (.prime p) s ops :=
+  history_transparent_partial (envAgree_prime hp h32 tabs env henv) _ ops hops hs
+
+-- non-vacuity: GF(7); the empty store is valid; a concrete history evaluated in both environments
+example : StoreOK (fun _ a => a < 7) ({} : St Nat) := fun k r hk => by cases hk
+example :
+    let env : Env Nat := { env5 with fld := fun _ => primeOps 7 }
+    let envT : Env Nat := { env with fld := fun _ => primeOpsT 7 true true }
+    let ops : List Op := [.eCtor 0 0 "gen" "", .tables 0 true true none, .eBin 1 "times" 0 0,
+      .eBin 2 "plus" 1 0, .eUn 3 "inv" 2, .ePow 4 3 5, .eCtor 5 0 "zero" "", .eUn 6 "inv" 5,
+      .eIn "mult" 0 6, .eEq 4 3, .eShow 4]
+    (∀ op ∈ ops, elemOp op = true) ∧
+    (runOps envT (.prime 7) {} ops).2 = (runOps env (.prime 7) {} ops).2 ∧
+    (runOps env (.prime 7) {} ops).2 = ["ok 0#3", "ok", "ok 0#2", "ok 0#5", "ok 0#3", "ok 0#5",
+      "ok 0#0", "ok !InputValue", "other !InputValue", "eq false", "show z=false o=false n=1 s=5"] := by
   decide +kernel
 
 end Algobra.C18Tables
